@@ -104,25 +104,30 @@ func C16(c *Ctx) {
 				es.Add(b, i)
 			}
 		}
-		// sinks: the target check in the IsLocal branch = first checkTargetAvailability call
-		var local []ssa.Instruction
-		isLocalTrue := condEdges(check, func(f core.Fact, ifi *ssa.If) (bool, int) {
-			if f.Kind == core.FBool && f.Field == "IsLocal" {
-				return true, holdsEdge(f)
+		// a request is accepted through checkTargetAvailability; when the source is local (true edge of
+		// srcChainService.IsLocal, the service parsed from ibtp.From) that call is reachable only across
+		// checkSourceAvailability == nil. Paths on which the source is remote (false edge) need no source check.
+		isSrc := func(v ssa.Value) bool {
+			return core.Mentions(v, func(w ssa.Value) bool {
+				cc, ok := w.(*ssa.Call)
+				return ok && strings.HasSuffix(core.CalleeName(cc), "parseChainService") && len(cc.Call.Args) > 0 && core.Mentions(cc.Call.Args[len(cc.Call.Args)-1], fieldNamed("From"))
+			})
+		}
+		srcRemote := condEdges(check, func(f core.Fact, ifi *ssa.If) (bool, int) {
+			if f.Kind == core.FBool && f.Field == "IsLocal" && isSrc(f.Subject) {
+				return true, 1 - holdsEdge(f)
 			}
 			return false, 0
 		})
-		_ = isLocalTrue
-		// the local-source branch is the one that runs checkSourceAvailability: target checks that follow it
-		for _, g := range gs {
-			after := core.Reach([]core.Point{core.After(g.Call)}, nil, nil)
-			for _, call := range core.Calls(check) {
-				if core.StaticCallee(call) == cta && after.Has(call) {
-					local = append(local, call)
-				}
+		r.Floor("R16.1", "tests of the source's IsLocal flag in checkIBTP", srcRemote.Len(), 1)
+		es.Merge(srcRemote)
+		var local []ssa.Instruction
+		for _, call := range core.Calls(check) {
+			if core.StaticCallee(call) == cta {
+				local = append(local, call)
 			}
 		}
-		r.Floor("R16.1", "target checks in the local-source branch", len(local), 1)
+		r.Floor("R16.1", "target checks in checkIBTP", len(local), 1)
 		c.behindEdges("R16.1", "checkIBTP", check, es, func(in ssa.Instruction) bool {
 			for _, x := range local {
 				if x == in {
@@ -130,7 +135,7 @@ func C16(c *Ctx) {
 				}
 			}
 			return false
-		}, "checkSourceAvailability == nil", "acceptance of a local-source request")
+		}, "checkSourceAvailability == nil (or source not local)", "acceptance of a request")
 		// R16.7: every verdict of checkTargetAvailability is the target error checkIBTP returns
 		nV := 0
 		for _, call := range core.Calls(check) {
